@@ -442,6 +442,7 @@ def pairs_unify(an, rep, features="default"):
     G7 = rep.rule("G7", "tag dispatch is exhaustive: a value read from the wire that selects between alternatives has its "
                         "remaining values lead to an error return (leniencies: bool any non-zero)")
     core = an.core(features)
+    _CRATE[0] = core
     n = 0
     for imp in core.items["impls"]:
         if not (imp["trait"] and imp["trait"].endswith("::BinarySerializer")):
@@ -625,6 +626,13 @@ def _consistent(wev, rev, rp):
     return True, ""
 
 
+_CRATE = [None]
+
+
+def rb_crate(rb, rp):
+    return _CRATE[0]
+
+
 def _check_labels(R, s, wev, rev, rp, rb):
     """G6 reader side: the binder of slot k reaches the constructor argument labelled like writer slot k"""
     slots = []
@@ -649,6 +657,21 @@ def _check_labels(R, s, wev, rev, rp, rb):
             f = strip_refs(c[5][1])
             base = mir.callee_info(f[2])["base_key"] if len(f) > 2 and isinstance(f[2], dict) else f[1]
             pseudo.append((f[1], base, [c[5][0]]))
+    # x.map(|v| ctor(v)) with a local closure: the closure's value with x standing in for its payload
+    for c in rp.calls():
+        if c[2].split("::")[-1] in ("map", "and_then") and len(c[5]) > 1:
+            f = strip_refs(c[5][1])
+            if f[0] == "agg" and f[1] == "closure":
+                val = walk.Walker(rb, rb_crate(rb, rp))._closure_value(f, [c[5][0]]) if rb_crate(rb, rp) else None
+                if isinstance(val, tuple):
+                    for x in mir.walk_expr(val):
+                        if x[0] == "call" and isinstance(x[3], list):
+                            pseudo.append((x[1], x[1], x[3]))
+    # constructor calls evaluated inside a closure given to map/and_then appear only in the returned term
+    if rp.outcome[0] == "return" and isinstance(rp.outcome[1], tuple):
+        for x in mir.walk_expr(rp.outcome[1]):
+            if x[0] == "call" and isinstance(x[3], list):
+                pseudo.append((x[1], x[1], x[3]))
     for k2, k3, cargs in pseudo:
         for (key, pos), lab in CTOR_LABEL.items():
             if (k2 == key or k3 == key) and pos < len(cargs):
